@@ -31,6 +31,16 @@ import json
 from rscan import code_mask, match_close, find_code, find_container, find_fn, line_of, ScanError  # noqa
 
 
+
+# D6: how a poisoned mutex is handled after `.lock()` is irrelevant to every property (lock() is assumed Ok): the rules
+# that are written for `.lock().unwrap()` also accept `.expect(..)` and `.unwrap_or_else(|e| e.into_inner())`
+LOCK_UNWRAP = r'\.lock\(\)(?:\.unwrap\(\)|\.expect\(\s*"[^"]*"\s*\)|\.unwrap_or_else\(\s*\|\s*\w+\s*\|\s*\w+\.into_inner\(\)\s*\)|\.unwrap_or_else\(\s*(?:std::sync::)?PoisonError::into_inner\s*\))'
+
+
+def rule_rx(rx):
+    return re.compile(rx.strip().replace(r'\.lock\(\)\.unwrap\(\)', LOCK_UNWRAP), re.S)
+
+
 class Undecided(Exception):
     """extraction could not be done (lost anchor, ambiguous match...) -> exit 2, never an alarm"""
     pass
@@ -181,7 +191,7 @@ class Unit:
             elif s.startswith('//@rw '):
                 rule, rest = s[len('//@rw '):].split('::', 1)
                 rx, repl = rest.rsplit('=>', 1)
-                self.rws.append((rule.strip(), re.compile(rx.strip(), re.S), repl.strip()))
+                self.rws.append((rule.strip(), rule_rx(rx), repl.strip()))
         while i < len(tl):
             s = tl[i].strip()
             if s.startswith('//@fn '):
@@ -272,7 +282,7 @@ class Unit:
                 spec.mutself = True; cur = None
             elif word == 'bind':
                 nm, rx = rest.split(None, 1)
-                spec.binds.append((nm, re.compile(rx.strip(), re.S))); cur = None
+                spec.binds.append((nm, rule_rx(rx))); cur = None
             elif word == 'canary':
                 spec.canary_inplace = (rest.strip() == 'inplace'); cur = None
             elif word == 'ret':
@@ -314,7 +324,7 @@ class Unit:
                 spec.closures[int(k) if k.isdigit() else k] = repl.strip(); cur = None
             elif word == 'lrw':
                 rx, repl = rest.rsplit('=>', 1)
-                spec.lrw.append(('L', re.compile(rx.strip(), re.S), repl.strip())); cur = None
+                spec.lrw.append(('L', rule_rx(rx), repl.strip())); cur = None
             elif word == 'lcalls':
                 names, toks = rest.split('+=')
                 spec.lcalls.append(([x.strip() for x in names.split(',')], toks.strip())); cur = None
